@@ -96,6 +96,10 @@ func RunC08(p *harness.Program, thorough bool) Result {
 			for ord := 0; ord < counts[k]; ord++ {
 				for _, m := range modesFor(k) {
 					plans = append(plans, faultPlan{simdisk.Fault{Kind: k, Ordinal: ord, Burst: 1 + int(rnd()%4), Mode: m, NoSpace: rnd()%2 == 0}})
+					if ord%3 == 0 {
+						// the storage never recovers during the history
+						plans = append(plans, faultPlan{simdisk.Fault{Kind: k, Ordinal: ord, Burst: 1 << 30, Mode: m, NoSpace: rnd()%2 == 0}})
+					}
 				}
 			}
 		}
@@ -115,7 +119,11 @@ func RunC08(p *harness.Program, thorough bool) Result {
 			}
 			k := ks[rnd()%uint64(len(ks))]
 			ms := modesFor(k)
-			plans = append(plans, faultPlan{simdisk.Fault{Kind: k, Ordinal: int(rnd() % uint64(counts[k])), Burst: 1 + int(rnd()%4),
+			burst := 1 + int(rnd()%4)
+			if rnd()%6 == 0 {
+				burst = 1 << 30 // the storage never recovers during the history
+			}
+			plans = append(plans, faultPlan{simdisk.Fault{Kind: k, Ordinal: int(rnd() % uint64(counts[k])), Burst: burst,
 				Mode: ms[rnd()%uint64(len(ms))], NoSpace: rnd()%2 == 0}})
 		}
 	}
@@ -192,6 +200,29 @@ func runWithFault(p *harness.Program, fp faultPlan, skip func(int, *harness.Item
 	}
 	if r.Disk.Injected() > 0 {
 		r.Counters["fault-hit"]++
+	}
+	if !r.Disk.FaultOver() && r.F != nil {
+		// The storage is still failing at the end of the history (long burst / persistent failure):
+		// the file is closed in that situation. Whatever Close returns, it must not panic or hang
+		// (watchdog) and it must release lock and mapping; the file is reopened after the "repair".
+		f := r.F
+		r.F = nil
+		var pv *harness.Violation
+		func() {
+			defer func() {
+				if x := recover(); x != nil {
+					pv = &harness.Violation{Clause: "panic", Item: -1, Msg: fmt.Sprintf("File.Close paniced while the storage was failing: %v [%s]", x, harness.TrimStack(debug.Stack()))}
+				}
+			}()
+			f.Close()
+		}()
+		r.Counters["close-under-faults"]++
+		if pv == nil && (r.Disk.Locked() || r.Disk.LiveViews() != 0) {
+			pv = &harness.Violation{Clause: "close-under-faults-lock", Item: -1, Msg: fmt.Sprintf("File.Close while the storage was still failing left the file locked=%v / %d mappings", r.Disk.Locked(), r.Disk.LiveViews())}
+		}
+		if pv != nil {
+			return r, postPub(r, pv)
+		}
 	}
 	// failures stop for good
 	r.Disk.Arm(nil)
